@@ -38,7 +38,7 @@ Files ==
 \* bounds on every residue class, in and out of range
 R(n, b) == {v \in {0, 1, 3, 4, 5, b - 1, b, b + 1, n - 1, n} : 0 <= v /\ v <= n}
 Out(n, p) == {-1, n + 1, p, p + 1}
-Bnd(Fl, ax) == R(Fl.n[ax], Fl.b[ax]) \cup Out(Fl.n[ax], P(Fl)[ax])
+Bnd(Fl, ax) == R(Fl.n[ax], Fl.b[ax]) \cup Out(Fl.n[ax], Pa(Fl, ax))
 Few(Fl, ax) == {0, Fl.n[ax] - 1, Fl.n[ax]}
 Ord(n, p) == (-2)..(p + 1) \cup {0 - n, 0 - n - 1}
 ZW(Fl) == {None} \cup Bnd(Fl, 3)
@@ -59,12 +59,12 @@ Arity(o) == CASE o \in {"read_inline", "read_crossline", "read_zslice", "read_in
 RealOp(o) == IF o \in {"sub/1", "sub/2", "sub/3", "sub/m"} THEN "read_subvolume" ELSE o
 
 Cand(o, k) ==
-    CASE o = "read_inline" -> Ord(F.n[1], P(F)[1])
-      [] o = "read_crossline" -> Ord(F.n[2], P(F)[2])
-      [] o = "read_zslice" -> Ord(F.n[3], P(F)[3])
-      [] o = "read_inline_number" -> {F.il.s + j * F.il.d : j \in (-1)..P(F)[1]} \cup {F.il.s + 1}
-      [] o = "read_crossline_number" -> {F.xl.s + j * F.xl.d : j \in (-1)..P(F)[2]} \cup {F.xl.s + 1}
-      [] o = "read_zslice_coord" -> (-2)..(2 * P(F)[3] + 2)
+    CASE o = "read_inline" -> Ord(F.n[1], Pa(F, 1))
+      [] o = "read_crossline" -> Ord(F.n[2], Pa(F, 2))
+      [] o = "read_zslice" -> Ord(F.n[3], Pa(F, 3))
+      [] o = "read_inline_number" -> {F.il.s + j * F.il.d : j \in (-1)..Pa(F, 1)} \cup {F.il.s + 1}
+      [] o = "read_crossline_number" -> {F.xl.s + j * F.xl.d : j \in (-1)..Pa(F, 2)} \cup {F.xl.s + 1}
+      [] o = "read_zslice_coord" -> (-2)..(2 * Pa(F, 3) + 2)
       [] o \in {"sub/1", "sub/2", "sub/3"} ->
             LET ax == (k + 1) \div 2
                 f  == IF o = "sub/1" THEN 1 ELSE IF o = "sub/2" THEN 2 ELSE 3
@@ -72,9 +72,9 @@ Cand(o, k) ==
       [] o = "sub/m" -> IF F.dim = 2 THEN {0, 1} ELSE LET ax == (k + 1) \div 2 IN {1, 4, F.b[ax] + 1, F.n[ax]} \cap 0..F.n[ax]
       [] o = "read_subvolume" -> {0, 1}
       [] o = "get_trace" ->
-            IF F.dim = 2 THEN (IF k = 1 THEN Ord(F.n[2], P(F)[2]) ELSE ZW(F))
+            IF F.dim = 2 THEN (IF k = 1 THEN Ord(F.n[2], Pa(F, 2)) ELSE ZW(F))
             ELSE IF k = 1 THEN {-1, 0, 1, F.n[2] - 1, F.n[2], F.n[2] + 1, TraceCount(F) - 1, TraceCount(F), F.n[1] * F.n[2] - 1,
-                                F.n[1] * F.n[2], F.n[1] * P(F)[2] - 1, P(F)[1] * P(F)[2] - 1, 0 - TraceCount(F)}
+                                F.n[1] * F.n[2], F.n[1] * Pa(F, 2) - 1, Pa(F, 1) * Pa(F, 2) - 1, 0 - TraceCount(F)}
             ELSE ZW(F)
       [] o = "get_trace_by_coord" ->
             IF k = 1 THEN {-1, 0, 1, TraceCount(F) - 1, TraceCount(F)}
@@ -82,7 +82,7 @@ Cand(o, k) ==
       [] o \in {"read_correlated_diagonal", "read_anticorrelated_diagonal"} ->
             IF k = 1 THEN (0 - F.n[2] - 1)..(F.n[1] + F.n[2])
             ELSE IF k \in {2, 3} THEN {None, -1, 0, 1, 2, 3, F.n[1], F.n[2]}
-            ELSE {None, 0, 1, F.n[3] - 1, F.n[3], F.n[3] + 1, P(F)[3]}
+            ELSE {None, 0, 1, F.n[3] - 1, F.n[3], F.n[3] + 1, Pa(F, 3)}
       [] o = "read_subplane" ->
             IF F.dim = 3 THEN {0, 1} ELSE IF k <= 2 THEN Bnd(F, 2) ELSE Bnd(F, 3)
       [] OTHER -> {}
